@@ -325,6 +325,15 @@ class Ctx:
                 continue
             new.setdefault(sig, f)
         rdir = VERIF / 'replays' / prop
+        # A difference between implementation and MODEL is a failing input of the property only while the model is the
+        # one the theorems are about. Once an obligation is broken (a regenerated table no longer fits, a theorem no
+        # longer checks) the model may simply have followed a misread table: such differences then say "the tie is
+        # broken", they are listed in the obligation file, and only implementation-vs-SPECIFICATION failures are
+        # reported as failing inputs.
+        demoted = {}
+        if self.broken:
+            demoted = {sig: f for sig, f in new.items() if f['kind'] == 'correspondence'}
+            new = {sig: f for sig, f in new.items() if f['kind'] != 'correspondence'}
         for sig, f in new.items():
             rdir.mkdir(parents=True, exist_ok=True)
             name = re.sub(r'[^A-Za-z0-9_.=-]+', '_', sig)[:120]
@@ -343,10 +352,14 @@ class Ctx:
             path.write_text(json.dumps(dict(property=prop, kind='obligation', no_failing_input_found=True,
                                             broken=self.broken, seed=self.seed, tier=self.tier,
                                             searched=dict(evaluations=self.evaluations, distinct_nontrivial=self.nontrivial),
-                                            notes=self.notes), indent=1) + '\n')
+                                            model_differs_on=[dict(signature=sig, what=f['what'], case=f['payload'].get('case'))
+                                                              for sig, f in list(demoted.items())[:10]],
+                                            notes=self.notes), indent=1, default=str) + '\n')
             print(f'VIOLATION property={prop} replay={path.relative_to(VERIF)} no-failing-input-found')
             for b in self.broken:
                 print(f'  no longer checks: {b}')
+            for sig, f in list(demoted.items())[:5]:
+                print(f'  model differs (tie broken, the property itself holds on this input): {f["what"][:200]}')
             exit_code = 1
         for sig, k in self.known.items():
             if sig not in printed_known:
